@@ -237,6 +237,9 @@ func (torrent *Torrent) MetadataComplete() error {
 			if f.Length < 0 {
 				return errors.New("file has negative length")
 			}
+			if length+f.Length < length {
+				return errors.New("torrent too large")
+			}
 			files = append(files,
 				Torfile{Path: path,
 					Offset:  length,
